@@ -11,4 +11,5 @@ cp /repo/Cargo.lock extract/Cargo.lock
 (cd lean && lake build ZvtVerif driver)
 cp /repo/Cargo.lock harness/Cargo.lock
 (cd harness && cargo build --offline && cargo build --release --offline)
+(cd lean && lake build labdriver)
 echo setup-ok
